@@ -6,14 +6,15 @@ EXTENDS Naturals, Sequences, FiniteSets, TLC
 (* configuration value admits.                                                                    *)
 CONSTANTS Types, MaxOps
 
-VARIABLES slot,      \* [st |-> "none"] | [st |-> "yaml", y |-> kind] | [st |-> "typed", ty |-> T, val |-> v]
+VARIABLES slot,      \* [st |-> "missing"] (key never touched) | [st |-> "none"] (touched, empty) |
+                     \* [st |-> "yaml", y |-> kind, v |-> value id] | [st |-> "typed", ty |-> T, val |-> v]
           nops, pret
 
 Compatible(y, T) == \/ (y = "num" /\ T \in {"u32", "i64"})
                     \/ (y = "str" /\ T = "string")
                     \/ (y = "bool" /\ T = "bool")
 
-TInit == /\ slot \in {[st |-> "none"], [st |-> "yaml", y |-> "num"], [st |-> "yaml", y |-> "str"], [st |-> "yaml", y |-> "bool"]}
+TInit == /\ slot \in {[st |-> "missing"], [st |-> "yaml", y |-> "num", v |-> 1], [st |-> "yaml", y |-> "str", v |-> 1], [st |-> "yaml", y |-> "bool", v |-> 1]}
          /\ nops = 0 /\ pret = [op |-> "init", slot |-> slot]
 
 (* ctx.prop::<T>(key): Err on a type mismatch (slot untouched), otherwise a handle; a configuration value *)
@@ -25,10 +26,11 @@ ReadTyped(T) ==
           /\ pret' = [op |-> "read", ty |-> T, res |-> IF slot.ty = T THEN "ok" ELSE "err", val |-> IF slot.ty = T THEN slot.val ELSE 0]
      ELSE IF slot.st = "yaml"
      THEN IF Compatible(slot.y, T)
-          THEN /\ slot' = [st |-> "typed", ty |-> T, val |-> 1]     \* 1 = "the configured value"
-               /\ pret' = [op |-> "read", ty |-> T, res |-> "ok", val |-> 1]
+          THEN /\ slot' = [st |-> "typed", ty |-> T, val |-> slot.v]     \* 1 = the initially configured value, 4 = a later one
+               /\ pret' = [op |-> "read", ty |-> T, res |-> "ok", val |-> slot.v]
           ELSE /\ UNCHANGED slot /\ pret' = [op |-> "read", ty |-> T, res |-> "err", val |-> 0]
-     ELSE /\ UNCHANGED slot /\ pret' = [op |-> "read", ty |-> T, res |-> "ok", val |-> 0]   \* 0 = absent
+     ELSE /\ slot' = [st |-> "none"]            \* the access creates the (empty) slot
+          /\ pret' = [op |-> "read", ty |-> T, res |-> "ok", val |-> 0]   \* 0 = absent
 
 (* prop::<T>(key)?.or(v) then set(w): write through a handle of type T *)
 Write(T, w) ==
@@ -38,10 +40,18 @@ Write(T, w) ==
      ELSE /\ slot' = [st |-> "typed", ty |-> T, val |-> w]
           /\ pret' = [op |-> "write", ty |-> T, res |-> "ok", val |-> w]
 
+(* a configuration entry for this key arrives later (include_cfg after the module exists): it only *)
+(* fills a slot that was never touched; an existing slot keeps its value and its type             *)
+Reconfig(y) ==
+  /\ nops < MaxOps /\ nops' = nops + 1
+  /\ slot' = IF slot.st = "missing" THEN [st |-> "yaml", y |-> y, v |-> 4] ELSE slot
+  /\ pret' = [op |-> "reconfig", ty |-> y, res |-> "ok", val |-> 0]
+
 Clear == /\ nops < MaxOps /\ nops' = nops + 1
          /\ slot' = [st |-> "none"] /\ pret' = [op |-> "clear", ty |-> "", res |-> "ok", val |-> 0]
 
 TNext == (\E T \in Types : ReadTyped(T)) \/ (\E T \in Types, w \in 2..3 : Write(T, w)) \/ Clear
+         \/ (\E y \in {"num", "str"} : Reconfig(y))
 TSpec == TInit /\ [][TNext]_<<slot, nops, pret>>
 
 (* the type of a slot changes only through Clear; a failed access changes nothing *)
